@@ -36,6 +36,11 @@ pub struct GoRecord {
     pub answered_ns: Option<u64>,
     /// id of the engine-side search record (SearchRec) this go created
     pub search_id: Option<usize>,
+    /// Move Overhead the GUI has configured (last value it sent; None = never set)
+    pub overhead_ms_configured: Option<u64>,
+    /// table size the GUI believes to be in effect: the last `setoption name Hash` that the engine did
+    /// not refuse (None = the start-up size)
+    pub hash_mb_believed: Option<usize>,
 }
 
 pub struct Outstanding {
@@ -83,6 +88,10 @@ pub struct GuiState {
     /// setoption that the engine refused because a search thread still held the tables
     pub refused_setoptions: u64,
     pub last_setoption: Option<(String, String)>,
+    pub overhead_ms_configured: Option<u64>,
+    pub hash_mb_believed: Option<usize>,
+    /// a Hash value was sent and the engine has not (yet) refused it: (value, refusals seen before it)
+    hash_pending: Option<(usize, u64)>,
     pub exited: bool,
     pub max_info_lines_kept: usize,
     /// number of engine-side searches already attributed to a go
@@ -120,6 +129,9 @@ impl GuiState {
             probes: BTreeMap::new(),
             refused_setoptions: 0,
             last_setoption: None,
+            overhead_ms_configured: None,
+            hash_mb_believed: None,
+            hash_pending: None,
             exited: false,
             max_info_lines_kept: 64,
             searches_seen: 0,
@@ -147,7 +159,23 @@ impl GuiState {
     }
 
     /// Decide what the input thread reads next.
+    fn note_option(&mut self, name: &str, value: &str) {
+        if name == "Move Overhead" {
+            self.overhead_ms_configured = value.parse().ok();
+        } else if name == "Hash" {
+            if let Ok(v) = value.parse::<usize>() {
+                self.hash_pending = Some((v, self.refused_setoptions));
+            }
+        }
+    }
+
     fn decide(&mut self, core: &mut SimCore<'_>) -> Next {
+        // the engine answers a refused Hash change before it reads the next line
+        if let Some((v, refused_before)) = self.hash_pending.take() {
+            if self.refused_setoptions == refused_before {
+                self.hash_mb_believed = Some(v);
+            }
+        }
         loop {
             if let Some(l) = self.pending.pop_front() {
                 return self.hand_over(l, core);
@@ -264,6 +292,7 @@ impl GuiState {
                 Intent::SetOption { name, value } => {
                     self.pc += 1;
                     self.last_setoption = Some((name.clone(), value.clone()));
+                    self.note_option(&name, &value);
                     return self.hand_over(format!("setoption name {name} value {value}"), core);
                 }
                 Intent::SetSpin { name, pick } => {
@@ -279,6 +308,7 @@ impl GuiState {
                         let name = opt.name.clone();
                         let v = pick.resolve(opt.min, opt.max, opt.default);
                         self.last_setoption = Some((name.clone(), v.to_string()));
+                        self.note_option(&name, &v.to_string());
                         probe(&mut self.probes, "setoption_from_advertised_range");
                         return self.hand_over(format!("setoption name {name} value {v}"), core);
                     }
@@ -315,6 +345,8 @@ impl GuiState {
                         handed_ns: core.now_ns,
                         answered_ns: None,
                         search_id: None,
+                        overhead_ms_configured: self.overhead_ms_configured,
+                        hash_mb_believed: self.hash_mb_believed,
                     });
                     // the limit the GUI puts on this search: movetime, or the mover's remaining clock
                     let white = self.game.player == crate::chess::player::Player::White;
